@@ -662,6 +662,7 @@ def extra_checks(rng, tier, workdir):
     yield from _api_identity_checks(rng, tier)
     yield from _nonsharing_pool_checks(rng, tier, workdir)
     yield from _interleaving_checks(rng, tier)
+    yield from _pool_failed_job_checks(rng, tier, workdir)
     yield from _threadpool_checks(rng, tier)
 
 
@@ -1040,7 +1041,7 @@ def _counted_inc(x):
     if _COUNT['file']:
         import os
         fd = os.open(_COUNT['file'], os.O_WRONLY | os.O_APPEND | os.O_CREAT)
-        os.write(fd, b'x')
+        os.write(fd, b'%d\n' % x)
         os.close(fd)
     return x + 1
 
@@ -1051,9 +1052,113 @@ def _times_ten(x):
 
 def _ncalls():
     import os
+    return len(_call_values())
+
+
+def _call_values():
+    import os
     if _COUNT['file']:
-        return os.path.getsize(_COUNT['file']) if os.path.exists(_COUNT['file']) else 0
-    return len(_COUNT['calls'])
+        if not os.path.exists(_COUNT['file']):
+            return []
+        return [int(l) for l in open(_COUNT['file']).read().split()]
+    return list(_COUNT['calls'])
+
+
+_FAULT = {'bad': frozenset(), 'flag': None}
+
+
+def _flaky_times_ten(x):
+    """module-level; raises on the chosen elements while the flag file exists (armed), also in forked workers"""
+    import os
+    if x in _FAULT['bad'] and _FAULT['flag'] and os.path.exists(_FAULT['flag']):
+        raise ValueError('fault')
+    return x * 10
+
+
+def _pool_failed_job_checks(rng, tier, workdir):
+    """A job on a real pool over q = p.map(g), p persisted, that fails for good in a LATER partition (g raises on
+    every attempt), after earlier partitions were computed and delivered; then the fault is disarmed and further
+    actions run on p and q.  Exact per-element call counts of the upstream function over the whole history: every
+    element of a partition delivered before the failing one is computed exactly once (its entry reached the
+    driver's manager although the job raised).  Backends whose map() yields results in order as they arrive
+    (ThreadPoolExecutor with identity or pickling serializers, ProcessPoolExecutor); plain/timed; failing partition
+    last/middle.  Partitions at or after the failing one are not judged (their results never reached the driver).
+    Oracle only."""
+    import collections
+    import multiprocessing
+    import os
+    import pickle
+    from concurrent.futures import ProcessPoolExecutor, ThreadPoolExecutor
+    import cloudpickle
+    _install()
+    combos = [(b, where, tmo) for b in ('thread', 'thread+pickle', 'process') for where in ('last', 'middle')
+              for tmo in (None, 50)]
+    if tier == 'quick':
+        combos = [c for c in combos if c[0] != 'process' or c[2] is None]
+    else:
+        combos = combos * 3
+    for n_sc, (backend, where, tmo) in enumerate(combos):
+        CLOCK.t = 0
+        nparts = rng.choice([3, 4])
+        parts = [[100 * k + j for j in range(rng.choice([1, 2, 3]))] for k in range(nparts)]
+        kfail = nparts - 1 if where == 'last' else rng.randint(1, nparts - 2)
+        _COUNT['calls'] = []
+        _COUNT['file'] = os.path.join(workdir, f'pf_calls_{n_sc}') if backend == 'process' else None
+        _FAULT['bad'] = frozenset(x + 1 for x in parts[kfail][:1])          # g sees f's outputs
+        _FAULT['flag'] = os.path.join(workdir, f'pf_flag_{n_sc}')
+        open(_FAULT['flag'], 'w').close()                                   # armed
+        m = CacheManager() if tmo is None else TimedCacheManager(timeout=tmo)
+        if backend == 'process':
+            pool = ProcessPoolExecutor(2, mp_context=multiprocessing.get_context('fork'))
+        else:
+            pool = ThreadPoolExecutor(2)
+        try:
+            kw = {} if backend == 'thread' else {'serializer': cloudpickle.dumps, 'deserializer': pickle.loads}
+            sc = Context(pool=pool, cache_manager=m, **kw)
+            p = sc._parallelize_partitions([list(x) for x in parts]).map(_counted_inc).persist(   # pylint: disable=protected-access
+                rng.choice([None] + STORAGE_LEVELS))
+            q = p.map(_flaky_times_ten)
+            want_p = [x + 1 for part in parts for x in part]
+            want_q = [x * 10 for x in want_p]
+            case = ('pool-failed-job', backend, where, tmo, parts, kfail)
+            fail = None
+            try:
+                r = q.collect() if rng.random() < 0.7 else q.count()
+                fail = ('pool-failed-job:fault-not-raised', f'the armed job returned {r!r}')
+            except ValueError:
+                pass
+            except Exception as e:  # pylint: disable=broad-except
+                fail = ('pool-failed-job:unexpected-exception', type(e).__name__)
+            if not fail:
+                os.remove(_FAULT['flag'])                                   # disarmed
+                later = [rng.choice([('p', 'collect'), ('q', 'collect')]), ('q', 'collect'), ('p', 'count')]
+                for which, a in later:
+                    node, want = (p, want_p) if which == 'p' else (q, want_q)
+                    try:
+                        got = node.collect() if a == 'collect' else node.count()
+                    except Exception as e:  # pylint: disable=broad-except
+                        got = f'raised {type(e).__name__}'
+                    if got != (want if a == 'collect' else len(want)):
+                        fail = ('pool-failed-job:result-differs-from-uncached', f'{which}.{a} after the failed job: {got!r}')
+                        break
+            if not fail:
+                counts = collections.Counter(_call_values())
+                delivered = [x for part in parts[:kfail] for x in part]
+                twice = {x: counts[x] for x in delivered if counts[x] != 1}
+                missing = [x for part in parts for x in part if counts[x] < 1]
+                if twice or missing:
+                    fail = ('pool-failed-job:delivered-partition-recomputed',
+                            f'the job failed in partition {kfail} of {nparts}; elements of the partitions delivered before it '
+                            f'were passed to the upstream function {twice} times (expected once each); never computed: {missing}')
+            if fail:
+                yield (fail[0], 'a pool job over a descendant of a persisted dataset fails for good in a later partition',
+                       fail[1], case)
+        finally:
+            pool.shutdown()
+            if os.path.exists(_FAULT['flag']):
+                os.remove(_FAULT['flag'])
+    _COUNT['file'] = None
+    _FAULT['flag'] = None
 
 
 def _nonsharing_pool_checks(rng, tier, workdir):
